@@ -344,6 +344,7 @@ def run(tier):
             ck.count("stopped_on_time_budget")
             break
         run_schema(ck, m, ck.rng, n_docs, max_depth=ck.rng.choice([2, 3, 3, 4]))
+    fragment_arguments(ck, 250 if tier == "quick" else 5000)
     ck.rule = ("per generated schema: type-directed documents (as C02) plus two textual mutants each (other name, other "
                "literal/variable, dropped arguments, other variable type, toggled non-null, dropped/added sub-selection, "
                "dropped default, other type condition, extra argument); (1) validate()==[] must imply extracted "
@@ -389,6 +390,161 @@ def run(tier):
         ck.extra["rules13_rule"] = ck.rule
         ck.rule = rule0 + " (validation rules) see coverage.rules13_rule"
     return ck.finish()
+
+
+# --------------------------------------------------------------------------- fragment arguments
+
+FA_SDL = "type Query { t: T, ts: [T!]!, a: Int, b: String }\ntype T { a: Int, b: String, c: Boolean!, n: T }"
+
+
+def _fa_data(depth=4):
+    d = None
+    for i in range(depth):
+        d = {"a": i, "b": f"s{i}", "c": i % 2 == 0, "n": d}
+    return {"t": d, "ts": [d, dict(d, a=9)], "a": 1, "b": "root"}
+
+
+def fragment_arguments(ck, n):
+    """Documents with fragment arguments (outside the Coq fragment; experimental_fragment_arguments):
+    fragment variables in @skip/@include on fields, inline fragments and in the arguments of nested
+    spreads, shadowing a same-named operation variable of a different value.  Direct predicates on
+    the implementation: validate() accepts; over conforming data no errors; the response equals that
+    of the equivalent document with the fragment arguments substituted by hand (spreads expanded to
+    inline fragments)."""
+    from graphql import build_schema, execute_sync, parse, validate
+    rng = ck.rng
+    schema = build_schema(FA_SDL)
+    data = _fa_data()
+
+    def cond(scope):
+        """a Boolean! condition: literal, fragment variable in scope, or operation variable"""
+        k = rng.random()
+        if scope and k < 0.6:
+            return ("var", rng.choice(scope))
+        if k < 0.8:
+            return ("lit", rng.choice(["true", "false"]))
+        return ("op", rng.choice(["x", "y"]))
+
+    def directive(scope):
+        if rng.random() < 0.25:
+            return []
+        return [(d, cond(scope)) for d in rng.sample(["include", "skip"], rng.choice([1, 1, 2]))]
+
+    def body(scope, depth, allow_nested):
+        items = []
+        for _ in range(rng.randint(1, 4)):
+            k = rng.random()
+            if k < 0.55 or depth <= 0:
+                items.append(("field", rng.choice(["a", "b", "c", "k: a", "k2: b"]), directive(scope)))
+            elif k < 0.85:
+                items.append(("inline", rng.choice(["", " on T"]), directive(scope), body(scope, depth - 1, False)))
+            elif allow_nested:
+                allow_nested = False
+                args = {"flag": cond(scope)}
+                if rng.random() < 0.5:
+                    args["g"] = cond(scope)
+                items.append(("nested", "n", directive(scope), ("spread", "G", args)))
+        if not items:
+            items.append(("field", "c", directive(scope)))
+        return items
+
+    def show_cond(c, env):
+        kind, v = c
+        if kind == "lit":
+            return v
+        if kind == "op":
+            return "$" + v
+        return "$" + v if env is None else env[v]
+
+    def show_dirs(ds, env):
+        return "".join(f" @{d}(if: {show_cond(c, env)})" for d, c in ds)
+
+    def show(items, env, frags):
+        out = []
+        for it in items:
+            if it[0] == "field":
+                out.append(it[1] + show_dirs(it[2], env))
+            elif it[0] == "inline":
+                out.append("..." + it[1] + show_dirs(it[2], env) + " { " + show(it[3], env, frags) + " }")
+            else:
+                out.append(it[1] + show_dirs(it[2], env) + " { " + show_spread(it[3], env, frags) + " }")
+        return " ".join(out)
+
+    def show_spread(sp, env, frags):
+        _, name, args = sp
+        if env is None:
+            return f"...{name}(" + ", ".join(f"{k}: {show_cond(c, None)}" for k, c in args.items()) + ")"
+        params, fbody = frags[name]
+        env2 = {p: (show_cond(args[p], env) if p in args else dflt) for p, (_t, dflt) in params.items()}
+        return "... on T { " + show(fbody, env2, frags) + " }"
+
+    for _ in range(n):
+        g_default = rng.choice(["true", "false"])
+        frags = {"G": ({"flag": ("Boolean!", None), "g": ("Boolean", g_default)}, None),
+                 "F": ({"flag": ("Boolean!", None), "g": ("Boolean", rng.choice(["true", "false"]))}, None)}
+        # every fragment variable is used at least once (NoUnusedFragmentVariables)
+        use_all = [("field", "kf: a", [(rng.choice(["include", "skip"]), ("var", "flag"))]),
+                   ("inline", "", [(rng.choice(["include", "skip"]), ("var", "g"))], [("field", "kg: b", [])])]
+        frags["G"] = (frags["G"][0], body(["flag", "g"], 2, False) + use_all)
+        frags["F"] = (frags["F"][0], body(["flag", "g"], 2, True) + use_all)
+        roots = []
+        for f_ in rng.sample(["t", "ts"], rng.randint(1, 2)):
+            fr = rng.choice(["F", "F", "G"])
+            args = {"flag": cond([])}
+            if rng.random() < 0.6:
+                args["g"] = cond([])
+            roots.append((f_, ("spread", fr, args)))
+        # operation variables; `flag` and `g` exist at operation level too, with values of their own
+        variables = {"x": rng.choice([True, False]), "y": rng.choice([True, False]),
+                     "flag": rng.choice([True, False]), "g": rng.choice([True, False])}
+        head = "query Q($x: Boolean!, $y: Boolean!, $flag: Boolean!, $g: Boolean!)"
+        opsel = " ".join(f"{f_} {{ {show_spread(sp, None, frags)} }}" for f_, sp in roots)
+        tail = " a @include(if: $flag) b @skip(if: $g) kx: a @include(if: $x) ky: b @skip(if: $y)"
+
+        def fdef(name):
+            params, fb = frags[name]
+            ps = ", ".join(f"${p}: {t}" + (f" = {d}" if d is not None else "") for p, (t, d) in params.items())
+            return f"fragment {name}({ps}) on T {{ {show(fb, None, frags)} }}"
+        used = {sp[1] for _f, sp in roots}
+        if any(it[0] == "nested" for it in frags["F"][1]) and "F" in used:
+            used.add("G")
+        text = f"{head} {{ {opsel}{tail} }}\n" + "\n".join(fdef(nm) for nm in sorted(used))
+        expanded = f"{head} {{ " + " ".join(f"{f_} {{ {show_spread(sp, {}, frags)} }}" for f_, sp in roots) + tail + " }"
+        try:
+            doc = parse(text, experimental_fragment_arguments=True)
+            doc2 = parse(expanded)
+        except Exception as e:  # noqa: BLE001
+            ck.count("fragment_argument_generator_error")
+            ck.extra.setdefault("generator_errors", []).append(f"{e!r}: {text}"[:300])
+            continue
+        key = f"fragment-arguments:{text}:{sorted(variables.items())!r}"
+        rep = {"relation": "fragment arguments = substitution by hand; validated => no errors on conforming data",
+               "sdl": FA_SDL, "document": text, "expanded": expanded, "variables": variables}
+        try:
+            verrs = validate(schema, doc)
+        except Exception as e:  # noqa: BLE001
+            verrs = [e]
+        if verrs:
+            ck.count("fragment_argument_document_rejected")
+            ck.extra.setdefault("fragment_argument_rejections", [])
+            if len(ck.extra["fragment_argument_rejections"]) < 3:
+                ck.extra["fragment_argument_rejections"].append(f"{verrs[0]!r}: {text}"[:400])
+            continue
+        try:
+            r1 = execute_sync(schema, doc, root_value=data, variable_values=variables)
+            r2 = execute_sync(schema, doc2, root_value=data, variable_values=variables)
+        except Exception as e:  # noqa: BLE001
+            ck.violation(key, f"execute_sync raised {type(e).__name__} on a validated document with fragment arguments", rep)
+            continue
+        ck.note_case(("fragment-arguments", text, repr(sorted(variables.items()))), nontrivial=True)
+        ck.count("fragment_argument_cases")
+        if r1.errors:
+            ck.violation(key, "a validated document with fragment arguments reports errors on conforming data: "
+                         + "; ".join(e.message for e in r1.errors[:2]), dict(rep, impl=repr(r1.data)))
+        elif json.dumps(r1.data) != json.dumps(r2.data) or r2.errors:
+            ck.violation(key, "the response of a document with fragment arguments differs from the response of the "
+                              "document with the arguments substituted by hand",
+                         dict(rep, impl=repr(r1.data), model=repr(r2.data)))
 
 
 def run_corpus_case(ck, m, c):
